@@ -471,6 +471,7 @@ func main() {
 		collectExecSites(pr, facts),
 		collectEffects(pr, facts),
 		collectCallOrder(pr, facts),
+		collectFuncs(pr, facts),
 	}
 	for _, f := range files {
 		if err := os.WriteFile(filepath.Join(*out, f.name+".lean"), f.bytes(), 0644); err != nil {
